@@ -36,18 +36,13 @@ impl TlsHandshaker {
         S: Read + Write,
     {
         let connector = self.inner.build()?;
-        let stream = match connector.connect(domain, stream) {
-            Ok(stream) => stream,
-            Err(HandshakeError::Failure(err)) => return Err(err.into()),
-            Err(HandshakeError::WouldBlock(mut stream)) => loop {
-                match stream.handshake() {
-                    Ok(stream) => break stream,
-                    Err(HandshakeError::Failure(err)) => return Err(err.into()),
-                    Err(HandshakeError::WouldBlock(mid_stream)) => stream = mid_stream,
-                }
-            },
-        };
-        Ok(TlsStream { inner: stream })
+        match connector.connect(domain, stream) {
+            Ok(stream) => Ok(TlsStream { inner: stream }),
+            Err(HandshakeError::Failure(err)) => Err(err.into()),
+            // The streams we are given are blocking: the only way a read would block is that the peer
+            // stayed silent for the whole read timeout, which ends the handshake like any other read.
+            Err(HandshakeError::WouldBlock(_)) => Err(io::Error::from(io::ErrorKind::TimedOut).into()),
+        }
     }
 }
 
